@@ -96,9 +96,16 @@ type Node struct {
 
 type Graph struct {
 	Dag    bool      `json:"dag,omitempty"`
+	WF     bool      `json:"wf,omitempty"` // built as a compose.Workflow (all-predecessor, eager scheduling: tasks are collected one by one)
 	Stages [][]*Node `json:"stages"`
 	Loop   bool      `json:"loop,omitempty"` // last stage (a single node) branches back to the first stage, never to END
 	Max    int       `json:"max,omitempty"`  // WithMaxRunSteps (0 = default)
+	// The branch after the last node: a cyclic graph has one (back to the first node); with EndBr an
+	// acyclic graph whose last stage is a single node reaches END through a branch instead of an edge.
+	EndBr bool     `json:"end_br,omitempty"`
+	Br    string   `json:"br,omitempty"` // "" (the condition succeeds) | fail | panic
+	BrErr *ErrSpec `json:"br_err,omitempty"`
+	BrID  int      `json:"br_id,omitempty"`
 }
 
 type Case struct {
@@ -106,6 +113,7 @@ type Case struct {
 	Par          string   `json:"par"`                     // invoke | stream | collect | transform
 	CancelBefore bool     `json:"cancel_before,omitempty"` // context already cancelled at the call
 	InErr        *ErrSpec `json:"in_err,omitempty"`        // collect/transform: the input stream carries this error item
+	Fwd          *FwdSpec `json:"fwd,omitempty"`           // a forwarder case (fwd.go): G / Par unused
 }
 
 // ---------------------------------------------------------------- error universe
@@ -372,6 +380,9 @@ func (i invokableOnly) InvokableRun(ctx context.Context, a string, o ...tool.Opt
 
 func compileOpts(g *Graph) []compose.GraphCompileOption {
 	var o []compose.GraphCompileOption
+	if g.WF {
+		return o
+	}
 	if g.Dag {
 		o = append(o, compose.WithNodeTriggerMode(compose.AllPredecessor))
 	}
@@ -381,7 +392,68 @@ func compileOpts(g *Graph) []compose.GraphCompileOption {
 	return o
 }
 
-func build(e *env, g *Graph, prefix []string) (*compose.Graph[M, M], error) {
+type compilable interface {
+	compose.AnyGraph
+	Compile(ctx context.Context, opts ...compose.GraphCompileOption) (compose.Runnable[M, M], error)
+}
+
+func build(e *env, g *Graph, prefix []string) (compilable, error) {
+	if g.WF {
+		return buildWF(e, g, prefix)
+	}
+	return buildGraph(e, g, prefix)
+}
+
+// buildWF: the same layered shape as a Workflow. A node with one predecessor takes its whole
+// output; with several, each predecessor's output goes to the map key named after it.
+func buildWF(e *env, g *Graph, prefix []string) (compilable, error) {
+	if len(g.Stages) == 0 || g.Loop {
+		return nil, errors.New("workflow cases have stages and no cycle")
+	}
+	wf := compose.NewWorkflow[M, M]()
+	wire := func(wn *compose.WorkflowNode, preds []*Node) {
+		if len(preds) == 1 {
+			wn.AddInput(preds[0].Key)
+			return
+		}
+		for _, p := range preds { // globally unique field names: merged chunk maps never collide on a key
+			wn.AddInput(p.Key, compose.ToField("wf:"+strings.Join(pathOf(prefix, p.Key), "/")))
+		}
+	}
+	for k, st := range g.Stages {
+		for _, n := range st {
+			path := pathOf(prefix, n.Key)
+			var wn *compose.WorkflowNode
+			switch n.Kind {
+			case "lam":
+				wn = wf.AddLambdaNode(n.Key, lambdaOf(e, n, path))
+			case "sub":
+				sg, err := build(e, n.Sub, path)
+				if err != nil {
+					return nil, err
+				}
+				wn = wf.AddGraphNode(n.Key, sg, compose.WithGraphCompileOptions(compileOpts(n.Sub)...))
+			case "tools":
+				sg, err := toolsGraph(e, n, path)
+				if err != nil {
+					return nil, err
+				}
+				wn = wf.AddGraphNode(n.Key, sg)
+			default:
+				return nil, fmt.Errorf("bad node kind %q", n.Kind)
+			}
+			if k == 0 {
+				wn.AddInput(compose.START)
+			} else {
+				wire(wn, g.Stages[k-1])
+			}
+		}
+	}
+	wire(wf.End(), g.Stages[len(g.Stages)-1])
+	return wf, nil
+}
+
+func buildGraph(e *env, g *Graph, prefix []string) (compilable, error) {
 	cg := compose.NewGraph[M, M]()
 	for _, st := range g.Stages {
 		for _, n := range st {
@@ -391,7 +463,7 @@ func build(e *env, g *Graph, prefix []string) (*compose.Graph[M, M], error) {
 			case "lam":
 				err = cg.AddLambdaNode(n.Key, lambdaOf(e, n, path))
 			case "sub":
-				var sg *compose.Graph[M, M]
+				var sg compilable
 				sg, err = build(e, n.Sub, path)
 				if err == nil {
 					err = cg.AddGraphNode(n.Key, sg, compose.WithGraphCompileOptions(compileOpts(n.Sub)...))
@@ -428,13 +500,31 @@ func build(e *env, g *Graph, prefix []string) (*compose.Graph[M, M], error) {
 		}
 	}
 	last := g.Stages[len(g.Stages)-1]
-	if g.Loop {
-		if len(last) != 1 || len(g.Stages[0]) != 1 {
-			return nil, errors.New("loop graphs have single-node first and last stages")
+	if g.Loop || g.EndBr {
+		if len(last) != 1 {
+			return nil, errors.New("a graph with a branch has a single-node last stage")
 		}
-		first := g.Stages[0][0].Key
-		br := compose.NewGraphBranch(func(ctx context.Context, in M) (string, error) { return first, nil },
-			map[string]bool{first: true, compose.END: true})
+		if len(g.Stages[0]) != 1 || g.Dag {
+			return nil, errors.New("a graph with a branch is a Pregel graph with a single-node first stage")
+		}
+		// a branch needs two possible ends: END and the first node (never chosen unless cyclic)
+		target := compose.END
+		ends := map[string]bool{compose.END: true, g.Stages[0][0].Key: true}
+		if g.Loop {
+			target = g.Stages[0][0].Key
+		}
+		brPath := pathOf(prefix, "#branch")
+		br := compose.NewGraphBranch(func(ctx context.Context, in M) (string, error) {
+			switch g.Br {
+			case "fail":
+				e.rec(brPath, "br-fail")
+				return "", g.BrErr.mk()
+			case "panic":
+				e.rec(brPath, "br-panic")
+				panic("boom:" + strconv.Itoa(g.BrID))
+			}
+			return target, nil
+		}, ends)
 		if err := cg.AddBranch(last[0].Key, br); err != nil {
 			return nil, err
 		}
@@ -462,6 +552,10 @@ type Proj struct {
 	Interrupt  bool     `json:"interrupt,omitempty"` // compose.ExtractInterruptInfo succeeds
 	MsgPath    []string `json:"msg_path,omitempty"`  // node path parsed from the message (public observable)
 	Msg        string   `json:"msg,omitempty"`
+	// read off the whole message (Msg is cut for display)
+	MsgPanic  bool `json:"msg_panic,omitempty"`
+	MsgLimit  bool `json:"msg_limit,omitempty"`
+	MsgCancel bool `json:"msg_cancel,omitempty"`
 }
 
 type Obs struct {
@@ -469,6 +563,7 @@ type Obs struct {
 	P     *Proj     `json:"p,omitempty"`
 	Info  string    `json:"info,omitempty"`
 	Log   []execRec `json:"log,omitempty"`
+	F     *FObs     `json:"f,omitempty"` // forwarder cases
 }
 
 var isTargets = []error{sentinels[0], sentinels[1], compose.ErrExceedMaxSteps, context.Canceled, compose.InterruptAndRerun, schema.ErrRecvAfterClosed}
@@ -512,6 +607,9 @@ func project(err error) *Proj {
 			p.MsgPath = strings.Split(last, ", ")
 		}
 	}
+	p.MsgPanic = strings.Contains(msg, "panic")
+	p.MsgLimit = strings.Contains(msg, "exceeds max steps")
+	p.MsgCancel = strings.Contains(msg, "context canceled")
 	if len(msg) > 160 {
 		msg = msg[:160] + "..."
 	}
@@ -639,7 +737,7 @@ type engine struct{}
 
 func (engine) ID() string { return "C13" }
 func (engine) CoqHeader() string {
-	return "From Eino Require Import Base.Util Model.Errors Corr.C13.\nOpen Scope string_scope.\n"
+	return "From Eino Require Import Base.Util Model.Errors Model.ErrorsFwd Corr.C13.\nOpen Scope string_scope.\n"
 }
 func (engine) CoqCaseType() string { return "ccase" }
 
@@ -648,7 +746,7 @@ func (engine) Decode(raw json.RawMessage) (any, error) {
 	if err := json.Unmarshal(raw, &c); err != nil {
 		return nil, err
 	}
-	if c.G == nil {
+	if c.G == nil && c.Fwd == nil {
 		return nil, errors.New("case without graph")
 	}
 	return &c, nil
@@ -656,6 +754,15 @@ func (engine) Decode(raw json.RawMessage) (any, error) {
 
 func (engine) Run(ci any) lib.Result {
 	c := ci.(*Case)
+	if c.Fwd != nil {
+		o := runFwd(c)
+		res := lib.Result{Obs: o, Tags: fwdTags(c, &o)}
+		n, _, _ := membersShape(c.Fwd)
+		res.Nontrivial = n >= 2 && len(o.F.Out) > 0
+		res.Oracle, res.Sig = oracleFwd(c, &o)
+		res.CoqTerm = fwdCaseCoq(c, &o)
+		return res
+	}
 	o := runImpl(c)
 	res := lib.Result{Obs: o}
 	res.Tags = tagsOf(c, &o)
